@@ -21,14 +21,18 @@ import (
 // that provider as issuer - whatever was verified before.
 
 type TwoIdPCase struct {
-	Part  string   `json:"part"` // "two-idps"
+	Part  string   `json:"part"`  // "two-idps"
 	Steps []string `json:"steps"` // "<authenticator>:<token>", e.g. "A:signed-by-A-iss-B"
 	HTTP  bool     `json:"http_cache_enabled"`
+	// SameURL: both providers are reached under ONE key set URL and told apart by a request header the authenticators
+	// are configured with (written as operators write it: X-Tenant-ID)
+	SameURL bool `json:"same_url_different_header,omitempty"`
 }
 
 const (
 	hostIdPA = "idp-a.local"
 	hostIdPB = "idp-b.local"
+	hostIdPs = "idp-shared.local"
 	issA     = "https://idp-a.local"
 	issB     = "https://idp-b.local"
 )
@@ -55,6 +59,18 @@ func installTwoIdPs() {
 
 	transport.Handlers[hostIdPA] = serve(getKey("P-256", "A"))
 	transport.Handlers[hostIdPB] = serve(getKey("P-256", "B"))
+
+	a, b := serve(getKey("P-256", "A")), serve(getKey("P-256", "B"))
+	transport.Handlers[hostIdPs] = func(r *env.Recorded) (*http.Response, error) {
+		switch r.Header.Get("X-Tenant-Id") {
+		case "A":
+			return a(r)
+		case "B":
+			return b(r)
+		}
+
+		return env.Reply(nil, http.StatusForbidden, "text/plain", "no tenant"), nil
+	}
 }
 
 func execTwoIdPs(tc *TwoIdPCase) (sig, summary string) {
@@ -72,6 +88,10 @@ func execTwoIdPs(tc *TwoIdPCase) (sig, summary string) {
 
 	for _, n := range []string{"A", "B"} {
 		ep := map[string]any{"url": "http://" + hosts[n] + "/.well-known/jwks.json"}
+		if tc.SameURL {
+			ep = map[string]any{"url": "http://" + hostIdPs + "/.well-known/jwks.json", "headers": map[string]any{"X-Tenant-ID": n}}
+		}
+
 		if tc.HTTP {
 			ep["http_cache"] = map[string]any{"enabled": true, "default_ttl": "5m"}
 		}
@@ -125,7 +145,7 @@ func execTwoIdPs(tc *TwoIdPCase) (sig, summary string) {
 				}
 			}
 
-			return "two-idps/" + dir + "/http-cache=" + fmt.Sprint(tc.HTTP),
+			return "two-idps/" + dir + "/http-cache=" + fmt.Sprint(tc.HTTP) + x(tc.SameURL, "/same-url-different-header", ""),
 				fmt.Sprintf("steps=%v: authenticator %s, token %s after %s: accepted=%v err=%v", tc.Steps, an, tn, before, accepted, xerr)
 		}
 	}
@@ -142,6 +162,8 @@ func runTwoIdPs(c *engine.Ctx, work *int) {
 		}
 	}
 
+	sameURL := false
+
 	eval := func(steps []string, httpCache bool) {
 		*work++
 
@@ -149,7 +171,7 @@ func runTwoIdPs(c *engine.Ctx, work *int) {
 			return
 		}
 
-		tc := &TwoIdPCase{Part: "two-idps", Steps: steps, HTTP: httpCache}
+		tc := &TwoIdPCase{Part: "two-idps", Steps: steps, HTTP: httpCache, SameURL: sameURL}
 		sig, sum := execTwoIdPs(tc)
 
 		c.Eval(1)
@@ -161,7 +183,23 @@ func runTwoIdPs(c *engine.Ctx, work *int) {
 		}
 	}
 
-	for _, hc := range []bool{true, false} {
+	for _, mode := range []bool{false, true} {
+		sameURL = mode
+
+		for _, hc := range []bool{true, false} {
+			if mode && hc {
+				// one URL for both providers AND response caching: whether the cached response of one tenant may answer the
+				// other depends on Vary, which the HTTP cache ignores - C11's known finding, not judged a second time here
+				continue
+			}
+
+			twoIdPSequences(actions, hc, eval)
+		}
+	}
+}
+
+func twoIdPSequences(actions []string, hc bool, eval func([]string, bool)) {
+	{
 		for _, a := range actions {
 			eval([]string{a}, hc)
 
@@ -190,4 +228,12 @@ func replayTwoIdPs(c *engine.Ctx, raw json.RawMessage) {
 	if sig != "" {
 		c.Violation(sig, sum, &tc)
 	}
+}
+
+func x(cond bool, a, b string) string {
+	if cond {
+		return a
+	}
+
+	return b
 }
